@@ -36,6 +36,22 @@ impl DoorKeeper {
     }
 }
 
+/// Thin public wrapper for the verification harness (feature `verif_hooks` only).
+#[cfg(feature = "verif_hooks")]
+pub mod verif_api {
+    use super::DoorKeeper;
+    use crate::cache::types::KeyHash;
+
+    pub struct VerifDoorKeeper(DoorKeeper);
+
+    impl VerifDoorKeeper {
+        pub fn new(capacity: usize, false_positive: f64) -> Self { VerifDoorKeeper(DoorKeeper::new(capacity, false_positive)) }
+        pub fn add_if_missing(&mut self, key: &KeyHash) -> bool { self.0.add_if_missing(key) }
+        pub fn has(&self, key: &KeyHash) -> bool { self.0.has(key) }
+        pub fn clear(&mut self) { self.0.clear(); }
+    }
+}
+
 #[cfg(test)]
 mod tests {
     use crate::cache::lfu::doorkeeper::DoorKeeper;
